@@ -49,7 +49,7 @@ PROPS["C13"] = {
 }
 
 PROPS["C19"] = {
-    "engines": {"val": {"quick": 400, "thorough": 4000}},
+    "engines": {"val": {"quick": 400, "thorough": 4000}, "std": {"quick": 300, "thorough": 3000}},
     "rule": "value engine: pools of host-constructed heap values (ints around 0, +-2^53, +-2^63, the zero-hash integer; reals incl. +-0, +-inf, NaN, subnormals, 2^53, 2^63; strings of equal/different length incl. non-ASCII; "
             "nested tables incl. the same entries in another insertion order and equal-content distinct objects; function, native and closure values) -> ==, hash, partial_cmp, <, <=, as_bool, + - * / on all sampled pairs and the laws "
             "(reflexive on the domain, symmetric, transitive, eq => same hash, asymmetric, eq => neither less nor greater) asserted on the implementation; non-trivial = case has >= 3 ops",
@@ -65,7 +65,7 @@ PROPS["C19"] = {
 }
 
 PROPS["C07"] = {
-    "engines": {"tbl": {"quick": 400, "thorough": 4000}, "hm": {"quick": 150, "thorough": 1500}},
+    "engines": {"tbl": {"quick": 400, "thorough": 4000}, "tblo": {"quick": 300, "thorough": 3000}, "hm": {"quick": 150, "thorough": 1500}},
     "rule": "table op sequences through the host API on a real VM table (insert/get/contains/remove/append/pop/nth/len/iter; 10-250 ops) with integer, finite non-zero real, string (equal text in distinct objects), nil keys, "
             "small integer keys around the length (so that append has to skip used keys), the zero-hash integer; values incl. nested tables; non-trivial = at least 3 ops. The hm engine is re-run because the table's hash part is the C12 map. "
             "Script-level operation sequences on aliased tables are exercised by the vm engine (C01/C06) — the aliasing sentence of the property is decided there.",
